@@ -61,13 +61,40 @@ theorem modifyR_spec (name : String) (idx : Nat) :
     simp only [modifyR, refuses, substAll, modifyRList_spec name idx ps]
     by_cases hps : refusesList name idx ps = true
     · simp [hps]
-    · match ps, hps with
-      | [], _ => simp [substAllList, refusesList, cb]
-      | [p], hps => simp [hps, substAllList, cb, isReg_substAll]
-      | p :: q :: rest, hps => simp [hps, substAllList, cb]
+    · by_cases hq : (t == "QUOTE") = true
+      · simp [hps, hq, cb]
+      · match ps, hps with
+        | [], _ => simp [substAllList, refusesList, cb, hq]
+        | [p], hps => simp [hps, substAllList, cb, isReg_substAll, hq]
+        | p :: q :: rest, hps => simp [hps, substAllList, cb, hq]
   | .call f as => by
     simp only [modifyR, refuses, substAll, modifyR_spec name idx f, modifyRList_spec name idx as]
-    by_cases h0 : refuses name idx f = true <;> by_cases h1 : refusesList name idx as = true <;> simp [h0, h1, cb]
+    by_cases h0 : refuses name idx f = true
+    · simp [h0]
+    · by_cases h1 : refusesList name idx as = true
+      · simp [h0, h1]
+      · simp only [h0, h1]
+        have he : isEvalIdent (substAll name idx f) = (isEvalIdent f && name != "eval") := by
+          cases f <;> simp only [substAll, isEvalIdent, Bool.false_and]
+          case ident n =>
+            by_cases hn : (n == name) = true
+            · have : n = name := by simpa using hn
+              subst this
+              by_cases hev : (n == "eval") = true
+              · have : n = "eval" := by simpa using hev
+                subst this
+                simp [isEvalIdent]
+              · simp [hn, hev, isEvalIdent]
+            · by_cases hev : (n == "eval") = true
+              · have : n = "eval" := by simpa using hev
+                subst this
+                have hne : ("eval" == name) = false := by simpa using hn
+                have : name ≠ "eval" := by intro h; subst h; simp at hne
+                simp [hn, isEvalIdent, this]
+              · simp [hn, hev, isEvalIdent]
+        by_cases hE : (isEvalIdent f && name != "eval") = true
+        · simp [cb, he, hE]
+        · simp [cb, he, hE]
   | .macroLit ps body => by
     simp only [modifyR, refuses, substAll, modifyR_spec name idx body]
     by_cases h0 : refuses name idx body = true <;> by_cases h1 : ps.contains name = true <;> simp [h0, h1, cb]
